@@ -5,9 +5,13 @@ Cfg(n, p, zk, prep, lk, pv) == CfgP(n, p, zk, prep, lk, pv, TRUE, TRUE)
 \* the configurations `p3r stark` can build (recursion/tests + circuit-prover set-ups)
 DriverConfigs == {
     Cfg("uni_fib_bb", "uni", FALSE, FALSE, FALSE, TRUE),
+    \* the same with Merkle caps of height 1 (two roots per commitment)
+    Cfg("uni_fib_bb_cap1", "uni", FALSE, FALSE, FALSE, TRUE),
     Cfg("uni_mul_kb_prep", "uni", FALSE, TRUE, FALSE, FALSE),
     Cfg("uni_gl_d2", "uni", FALSE, FALSE, FALSE, TRUE),
     Cfg("batch_two_airs_bb", "batch", FALSE, TRUE, FALSE, TRUE),
+    \* the same with Merkle caps of height 2 (four roots per commitment)
+    Cfg("batch_two_airs_bb_cap2", "batch", FALSE, TRUE, FALSE, TRUE),
     \* the same AIRs, the instance without preprocessed columns first (matrix_to_instance = [1]) and of another height
     Cfg("batch_two_airs_rev_bb", "batch", FALSE, TRUE, FALSE, TRUE),
     Cfg("batch_lookups_bb", "tables", FALSE, TRUE, TRUE, FALSE),
@@ -15,6 +19,9 @@ DriverConfigs == {
     Cfg("batch_fib_kb_zk", "batch", TRUE, FALSE, FALSE, TRUE),
     \* the same with unequal proof-of-work bits (commit 0, query 3)
     CfgP("batch_fib_kb_zk_pow", "batch", TRUE, FALSE, FALSE, TRUE, FALSE, TRUE)}
+\* Merkle cap height of the configuration's MMCS (every full-height commitment carries 2^cap digests) and digest width in field elements
+CapLog(n) == CASE n = "uni_fib_bb_cap1" -> 1 [] n = "batch_two_airs_bb_cap2" -> 2 [] OTHER -> 0
+DigestElems(n) == IF n = "uni_gl_d2" THEN 4 ELSE 8
 \* every feature combination (design check only; lookups need the batch verifier)
 AllConfigs == {CfgP("any", p, zk, prep, lk, pv, cp, qp) : p \in {"uni", "batch", "tables"}, zk \in BOOLEAN, prep \in BOOLEAN, lk \in BOOLEAN, pv \in BOOLEAN,
                                                         cp \in BOOLEAN, qp \in BOOLEAN}
@@ -41,7 +48,8 @@ Emit == Done => PrintT(<<"REPLAY", ToJson(IF mal = NoMal THEN FaultCase ELSE Mal
 \* once per configuration: the marker case (C14) and the kinds the model says the statement does not contain
 EmitPerConfig == (pc = 0 /\ fault = "none" /\ mal = NoMal) =>
     /\ PrintT(<<"REPLAY", ToJson([spec |-> "Stark", config |-> cfg.name, mode |-> "marker",
-                                  model |-> [zk |-> cfg.zk, prep |-> cfg.prep, lookups |-> cfg.lookups, pubvals |-> cfg.pubvals, proto |-> cfg.proto]])>>)
+                                  model |-> [zk |-> cfg.zk, prep |-> cfg.prep, lookups |-> cfg.lookups, pubvals |-> cfg.pubvals, proto |-> cfg.proto,
+                                             roots |-> 2 ^ CapLog(cfg.name), digest |-> DigestElems(cfg.name)]])>>)
     /\ \A q \in ParamsOf(cfg), o \in {"inc", "dec"} :
           PrintT(<<"REPLAY", ToJson([spec |-> "Stark", config |-> cfg.name, mode |-> "malformed", alter |-> [target |-> q, op |-> o],
                                     model |-> [refused_at |-> "param", validated |-> TRUE]])>>)
